@@ -132,7 +132,7 @@ impl<'a> Writer0<'a> {
         let path = self.dir.join(&rel);
         std::fs::create_dir_all(path.parent().unwrap()).unwrap();
         let codec = if self.rng.bool() { Codec::Deflate(Default::default()) } else { Codec::Null };
-        let mut w = Writer::with_codec(&schema, std::fs::File::create(&path).unwrap(), codec);
+        let mut w = Writer::with_codec(&schema, std::fs::File::create(&path).unwrap(), codec).expect("avro writer");
         for e in &entries {
             let fp = if e.file.remote { format!("s3://bucket/warehouse/{}", e.file.rel) } else { uri(self.rng, self.dir, &e.file.rel) };
             let mut df = Vec::new();
@@ -158,7 +158,7 @@ impl<'a> Writer0<'a> {
         let rel = format!("metadata/snap-{}-{}.avro", snap, self.rng.below(1 << 20));
         let schema = Schema::parse_str(MANIFEST_LIST_SCHEMA).expect("list schema");
         let codec = if self.rng.bool() { Codec::Deflate(Default::default()) } else { Codec::Null };
-        let mut w = Writer::with_codec(&schema, std::fs::File::create(self.dir.join(&rel)).unwrap(), codec);
+        let mut w = Writer::with_codec(&schema, std::fs::File::create(self.dir.join(&rel)).unwrap(), codec).expect("avro writer");
         for (i, m) in manifests.iter().enumerate() {
             let mp = if remote_manifest && i == 0 { format!("hdfs://nn/warehouse/{}", m.rel) } else { uri(self.rng, self.dir, &m.rel) };
             w.append(AV::Record(vec![
